@@ -76,3 +76,72 @@ pub fn ind_constant_dispatch() {
 		_ => ind_constant::<WoodiesCCI>(),
 	}
 }
+
+/// C10 / C09 (X part): an accepted instance processes a stream of valid symbolic candles without
+/// panicking; a second, identically built instance produces syntactically identical results
+/// (no hidden state); the result shape matches size()
+fn ind_stream<C: IndicatorConfig + Default + Clone>() {
+	let t = rsx::param("t") as usize;
+	let c0 = valid_candle_i(1000);
+	let cfg = C::default();
+	let cfg2 = cfg.clone();
+	let (nv, ns) = cfg.size();
+	let mut a = cfg.init(&c0).unwrap();
+	let mut b = cfg2.init(&c0).unwrap();
+	for i in 0..t {
+		let c = valid_candle_i(i);
+		let ra = a.next(&c);
+		let rb = b.next(&c);
+		rsx::check("ind.shape.values", ra.values().len() == nv as usize);
+		rsx::check("ind.shape.signals", ra.signals().len() == ns as usize);
+		// no hidden state: two identically built instances agree (decided by the solver on the two
+		// result terms; bit-identical is modelled as equal real values / equal zero signs)
+		for q in 0..ra.values().len() {
+			rsx::check("ind.determinism.value", rsx::bits_eq(ra.values()[q], rb.values()[q]));
+		}
+		for q in 0..ra.signals().len() {
+			rsx::check("ind.determinism.signal", ra.signals()[q] == rb.signals()[q]);
+		}
+	}
+}
+pub fn ind_stream_dispatch() {
+	let kind = rsx::param_str("kind");
+	match kind.as_str() {
+		"Aroon" => ind_stream::<Aroon>(),
+		"AverageDirectionalIndex" => ind_stream::<AverageDirectionalIndex>(),
+		"AwesomeOscillator" => ind_stream::<AwesomeOscillator>(),
+		"BollingerBands" => ind_stream::<BollingerBands>(),
+		"ChaikinMoneyFlow" => ind_stream::<ChaikinMoneyFlow>(),
+		"ChaikinOscillator" => ind_stream::<ChaikinOscillator>(),
+		"ChandeKrollStop" => ind_stream::<ChandeKrollStop>(),
+		"ChandeMomentumOscillator" => ind_stream::<ChandeMomentumOscillator>(),
+		"CommodityChannelIndex" => ind_stream::<CommodityChannelIndex>(),
+		"CoppockCurve" => ind_stream::<CoppockCurve>(),
+		"DetrendedPriceOscillator" => ind_stream::<DetrendedPriceOscillator>(),
+		"DonchianChannel" => ind_stream::<DonchianChannel>(),
+		"EaseOfMovement" => ind_stream::<EaseOfMovement>(),
+		"EldersForceIndex" => ind_stream::<EldersForceIndex>(),
+		"Envelopes" => ind_stream::<Envelopes>(),
+		"FisherTransform" => ind_stream::<FisherTransform>(),
+		"HullMovingAverage" => ind_stream::<HullMovingAverage>(),
+		"IchimokuCloud" => ind_stream::<IchimokuCloud>(),
+		"Kaufman" => ind_stream::<Kaufman>(),
+		"KeltnerChannel" => ind_stream::<KeltnerChannel>(),
+		"KlingerVolumeOscillator" => ind_stream::<KlingerVolumeOscillator>(),
+		"KnowSureThing" => ind_stream::<KnowSureThing>(),
+		"MACD" => ind_stream::<MACD>(),
+		"MomentumIndex" => ind_stream::<MomentumIndex>(),
+		"MoneyFlowIndex" => ind_stream::<MoneyFlowIndex>(),
+		"ParabolicSAR" => ind_stream::<ParabolicSAR>(),
+		"PivotReversalStrategy" => ind_stream::<PivotReversalStrategy>(),
+		"PriceChannelStrategy" => ind_stream::<PriceChannelStrategy>(),
+		"RelativeStrengthIndex" => ind_stream::<RelativeStrengthIndex>(),
+		"RelativeVigorIndex" => ind_stream::<RelativeVigorIndex>(),
+		"SMIErgodicIndicator" => ind_stream::<SMIErgodicIndicator>(),
+		"StochasticOscillator" => ind_stream::<StochasticOscillator>(),
+		"Trix" => ind_stream::<Trix>(),
+		"TrendStrengthIndex" => ind_stream::<TrendStrengthIndex>(),
+		"TrueStrengthIndex" => ind_stream::<TrueStrengthIndex>(),
+		_ => ind_stream::<WoodiesCCI>(),
+	}
+}
